@@ -562,6 +562,62 @@ def cmp_single(ck, c, res, mo):
 
 
 # ---------------------------------------------------------------------------------------------
+# the builders' side tables, from the corner longitudes
+
+def run_tables(ck, c):
+    """UxDataArray.to_polycollection / to_geodataframe on a fresh grid; the side tables the builder left in
+    the grid's cache dictionaries, the returned index table and the attached data are compared with the
+    model, which gets only the corner longitudes (frame of the projection), NaN flags and piece counts"""
+    mc = c["mesh"]
+    call = dict(c["call"], level="da")
+    g = build_grid(mc)
+    res = {"raises": None}
+    try:
+        obj, idx = convert(g, call)
+    except Exception as ex:
+        res["raises"] = type(ex).__name__ + ": " + str(ex)[:100]
+        return res, None
+    p = call["proj"]
+    n = len(mc["faces"])
+    lu = shifted(mc["lon_u"], proj_cl_u(p))
+    faces_lon = [[lu[i] for i in f] for f in mc["faces"]]
+    m = max(len(f) for f in mc["faces"])
+    if call["export"] == "poly":
+        d = g._poly_collection_cached_parameters
+        nn = d["non_nan_polygon_indices"]
+        res["am"] = [int(x) for x in np.asarray(d["antimeridian_face_indices"]).ravel()]
+        res["non_nan"] = None if nn is None else [int(x) for x in np.asarray(nn).ravel()]
+        res["c2o"] = [int(x) for x in idx]
+        dat = data_of(obj, "v%d" % call.get("var", 0))
+        res["data"] = None if dat is None else [int(x) for x in dat]
+        pieces = [1] * n
+        if call["periodic"] == "split":
+            for f in range(n):
+                pieces[f] = res["c2o"].count(f)
+    else:
+        res["am"] = [int(x) for x in np.asarray(g._gdf_cached_parameters["antimeridian_face_indices"]).ravel()]
+        pieces = [1] * n
+    vals = [int(v) for v in values_for(n, call.get("var", 0))]
+    return res, ("tables", sx([PER[call["periodic"]], m, faces_lon, nan_flags(mc, p, None), pieces, vals]))
+
+
+def cmp_tables(ck, c, res, mo):
+    m_am, m_nn, m_c2o, m_rows, m_data, m_faces = mo
+    if list(m_am) != res["am"]:
+        ck.corr_failures.append({"case": c, "what": "stored antimeridian_face_indices", "impl": res["am"], "model": m_am})
+    if c["call"]["export"] != "poly":
+        return
+    if (m_nn is None) != (res["non_nan"] is None) or (m_nn is not None and list(m_nn) != res["non_nan"]):
+        ck.corr_failures.append({"case": c, "what": "stored non_nan_polygon_indices", "impl": res["non_nan"], "model": m_nn})
+    if list(m_c2o) != res["c2o"]:
+        ck.corr_failures.append({"case": c, "what": "returned corrected_to_original_faces", "impl": res["c2o"], "model": m_c2o})
+    if res["data"] is not None and list(m_data) != res["data"]:
+        ck.corr_failures.append({"case": c, "what": "data re-indexed with the side tables", "impl": res["data"][:20], "model": list(m_data)[:20]})
+    if c["call"]["proj"] is None and list(m_rows) != list(m_faces):
+        ck.corr_failures.append({"case": c, "what": "face-by-face rows vs pipeline (model internal)", "rows": m_rows, "faces": m_faces})
+
+
+# ---------------------------------------------------------------------------------------------
 # antimeridian faces
 
 def run_am(ck, c):
@@ -978,11 +1034,14 @@ def gen_cases(ck):
                 fin["override"] = rng.random() < 0.1
                 steps[-1] = fin
         cases.append({"kind": "hist", "mesh": mc, "steps": steps})
+    # the side tables of every single conversion that has them
+    for c in [c for c in cases if c["kind"] == "single" and c["call"]["export"] in ("poly", "gdf")]:
+        cases.append({"kind": "tables", "mesh": c["mesh"], "call": c["call"]})
     return cases
 
 
-RUNNERS = {"am": run_am, "single": run_single, "hist": run_hist}
-CMPS = {"am": cmp_am, "single": cmp_single, "hist": cmp_hist}
+RUNNERS = {"am": run_am, "single": run_single, "hist": run_hist, "tables": run_tables}
+CMPS = {"am": cmp_am, "single": cmp_single, "hist": cmp_hist, "tables": cmp_tables}
 
 
 def strip(c):
